@@ -10,7 +10,7 @@ from vf.runner import CaseTimeout, case_alarm
 ID = "C06"
 LEVEL = "exploration"
 RULE = ("trees over {Block(0-3 children), IfThen, IfThenElse, leaf, Null} with conditions "
-        "from {a,b,!a,!!a,!b,True,False}: exhaustive up to the internal-node bound of the "
+        "from {a,b,!a,!!a,!b,True,False,!True,!False}: exhaustive up to the internal-node bound of the "
         "tier, plus seeded random trees (depth<=6, <=24 leaves, up to 4 flags); each tree is "
         "run through the real simplify_ast and both trees are walked under every flag "
         "valuation. distinct = canonical JSON of the tree; non-trivial = at least one "
@@ -26,7 +26,7 @@ ANCHORS = ["dagrt.codegen.dag_ast:simplify_ast",
 MIN_NONTRIVIAL = {"quick": 5000, "thorough": 420000}
 SHARD_TIMEOUT = {"quick": 600, "thorough": 3000}
 
-CONDS = ["a", "b", ["!", "a"], ["!", ["!", "a"]], ["!", "b"], True, False]
+CONDS = ["a", "b", ["!", "a"], ["!", ["!", "a"]], ["!", "b"], True, False, ["!", True], ["!", False]]
 CONDS_SMALL = ["a", ["!", "a"], "b", False]
 
 NSHARDS = 16
@@ -85,6 +85,9 @@ def rand_tree(rng, depth, nflags):
         if r < 0.08:
             return rng.choice([True, False])
         c = rng.choice(flags)
+        if r < 0.14:
+            c = rng.choice([True, False])      # ... negated below: !True, !!False
+            c = ["!", c]
         while rng.random() < 0.3:
             c = ["!", c]
         return c
